@@ -275,8 +275,13 @@ class Bundle:
         assert_bundle_attr(self, val)
 
         # Checks out! Name `val` and add it to our type-based containers.
+        prior = val.name
         val.name = key
         _add(bundle=self, val=val)
+        if prior is not None and prior != key and self.namespace.get(prior, None) is val:
+            # `val` was one of our attributes already, under another name. An object has one name: it moves.
+            for ctr in (self.namespace, self.signals, self.bundles):
+                ctr.pop(prior, None)
         return None
 
     def __getattr__(self, key):
